@@ -1,6 +1,7 @@
 import copy
 import inspect
 from functools import wraps
+from itertools import chain
 from typing import (
     Any,
     Callable,
@@ -429,9 +430,11 @@ class EvolvableModule(nn.Module, metaclass=ModuleMeta):
         :return: New neural network with copied parameters
         :rtype: nn.Module
         """
+        # Buffers (e.g. BatchNorm running statistics) are learned state as well
         old_net_dict = dict(old_net.named_parameters())
+        old_net_dict.update(old_net.named_buffers())
 
-        for key, param in new_net.named_parameters():
+        for key, param in chain(new_net.named_parameters(), new_net.named_buffers()):
             if key in old_net_dict.keys():
                 old_param = old_net_dict[key]
                 old_size = old_param.data.size()
